@@ -1,7 +1,7 @@
 (* Correspondence cases for C12: outcome CLASS of the kyaml core calls that Props/C12.v proves total
    (PathGetter = walk; fieldspec.Filter = fs_apply) on mutated documents. Only the class
    (COk / CErr / CPanic / CDiverge) is compared. *)
-From KV Require Export Yaml.FieldSpec.
+From KV Require Export Yaml.FieldSpec Res.BuildAnnot.
 
 (* Filter.SetValue as used by the harness *)
 Inductive setter12 :=
@@ -12,7 +12,11 @@ Inductive setter12 :=
 Inductive op12 :=
 | O12Lookup (path : list string)
 | O12LookupCreate (k : kind) (path : list string)
-| O12FieldSpec (fs : fieldspec) (ck : option kind) (s : setter12).
+| O12FieldSpec (fs : fieldspec) (ck : option kind) (s : setter12)
+(* api/resource.Resource methods on a document of BuildAnnot's domain *)
+| O12AddPrefix (p : string)        (* r.AddNamePrefix(p) *)
+| O12Enable                        (* r.AllowNameChange() *)
+| O12RemoveBuild.                  (* r.RemoveBuildAnnotations() *)
 
 Record case12 := mk12 {
   c12_op : op12;
@@ -34,6 +38,9 @@ Definition run12 (c : case12) : oclass :=
   | O12Lookup p => class_of (lookup (parse_path p) (c12_doc c))
   | O12LookupCreate k p => class_of (lookup_create k (parse_path p) (c12_doc c))
   | O12FieldSpec fs ck s => class_of (fs_apply ck TNone (setter_fn s) fs (c12_doc c))
+  | O12AddPrefix p => class_of (append_csv_annotation no_nonstr K_utils_BuildAnnotationPrefixes p (c12_doc c))
+  | O12Enable => class_of (enable K_utils_BuildAnnotationAllowNameChange (c12_doc c))
+  | O12RemoveBuild => class_of (remove_build_annotations (c12_doc c))
   end.
 
 Definition oclass_eqb12 (a b : oclass) : bool :=
